@@ -2,7 +2,7 @@
 
 The spec has two halves (constant Mode).
 
-"delim": texts over x, y, a 2-byte and a 3-byte character, LF and CR LF, delivered as bytes cut at arbitrary
+"delim": texts over x, y (a blank), a 2-byte and a 3-byte character, LF and CR LF, delivered as bytes cut at arbitrary
 positions; the reference line assembler Feed/End is model-checked against SplitLines(Decode(bytes)) for every
 chunking and every case is printed with its expected lines.  The driver delivers each (text, chunking) to the
 real HttpSource._byte_it_ as identity / gzip / deflate (stored blocks, so that the cuts fall exactly where the
@@ -27,7 +27,7 @@ FINISH = dict(level="model_checking",
               rule="a case = one TLC-generated (text, chunking) delivered through the real byte/line sources in three content encodings, or one TLC-generated dataset file (table + lexical choices) read by the real reader; distinct = distinct byte deliveries / files")
 
 NONASCII = "\u00e9"          # the spec's "~" / E
-BYTE = {"x": b"x", "y": b"y", "M1": b"\xc3", "M2": b"\xa9", "T1": b"\xe2", "T2": b"\x82", "T3": b"\xac", "LF": b"\n", "CR": b"\r"}
+BYTE = {"x": b"x", "y": b" ", "M1": b"\xc3", "M2": b"\xa9", "T1": b"\xe2", "T2": b"\x82", "T3": b"\xac", "LF": b"\n", "CR": b"\r"}
 
 
 def txt(s): return s.replace("~", NONASCII)
@@ -134,7 +134,7 @@ def run_delim(ctx, rng):
         for c in cases:
             raw = b"".join(BYTE[b] for b in c["bytes"])
             cuts = [i + 1 for i, f in enumerate(c["cuts"]) if f]
-            exp = [l.replace("E", NONASCII).replace("W", "\u20ac") for l in c["lines"]]
+            exp = [l.replace("E", NONASCII).replace("W", "\u20ac").replace("y", " ") for l in c["lines"]]
             texts.setdefault(raw, exp)
             if not raw: continue
             # identity: the chunks are the spec's
@@ -248,7 +248,7 @@ def read_arff(lines, attrs, rows, sparse, ArffReader):
                         if nm in items and items[nm] != 0: return Outcome("misread", "value", "row %d column %r is %r, the file says 0" % (i, nm, items[nm]))
                         continue
                     if nm not in items: return Outcome("misread", "value", "row %d has no entry %r (keys %r), the file says %s" % (i, nm, sorted(map(str, items)), show(x)))
-                    if not cell_ok(x, items[nm], True): return Outcome("misread", "missing-value" if x["t"] == "miss" or items[nm] is None else "value", "row %d column %r is %r, the file says %s" % (i, nm, items[nm], show(x)))
+                    if not cell_ok(x, items[nm], True): return Outcome("misread", "missing-value" if x["t"] == "miss" or items[nm] is None else ("levels" if x["t"] == "nom" and str(items[nm]) == x["s"] else "value"), "row %d column %r is %r, the file says %s" % (i, nm, items[nm], show(x)))
                     if not cell_ok(x, g[nm], True): return Outcome("misread", "value-by-key", "row %d column %r read by name is %r, the file says %s" % (i, nm, g[nm], show(x)))
                 if not keys <= set(names): return Outcome("misread", "names", "row %d has keys %r outside the declared names %r" % (i, sorted(map(str, keys)), names))
             marker = g.missing
@@ -353,9 +353,12 @@ def diagnose(reader, c, o, lines):
         strs = [txt(x["s"]) for r in c["rows"] for x in r if x["t"] == "s"]
         data = data_lines(lines)
         both = lambda ls: any("'" in l for l in ls) and any('"' in l for l in ls)
+        if "?" in strs + levels and (o.aspect == "missing-value" or o.kind == "raises") and reader == "arff-sparse" and any("'?'" in l or '"?"' in l for l in data + lines):
+            return "arff:quoted-question-mark:confused-with-missing"      # the sparse face of the quoted '?' finding
         if reader == "arff-sparse" and any("'" in l or '"' in l for l in data):
             return "arff-sparse:quoted-value-in-row:not-unquoted"
-        if any("\\" in v for v in names + levels):
+        if any("\\" in v for v in names + levels) and (o.aspect in ("names", "levels") or (o.kind == "raises" and ("unable to find" in o.what or "identical header" in o.what))
+                                                          or (reader == "arff-sparse" and o.aspect in ("value", "value-by-key") and any("\\" in v for v in names))):
             return "arff:backslash-in-attribute-name-or-level:deleted"
         if "?" in strs + levels and (o.aspect == "missing-value" or o.kind == "raises"):
             return "arff:quoted-question-mark:confused-with-missing"
@@ -368,7 +371,7 @@ def diagnose(reader, c, o, lines):
                 return "arff-dense:backslash-in-value-with-both-quote-styles:deleted"
             if o.kind == "raises" and both(data) and (o.what.startswith("IndexError") or any(v.endswith("\\") or v.startswith(",") for v in strs)):
                 return "arff-dense:fallback-parser-with-both-quote-styles:rejects-valid-row"
-            if "," not in devs.get("dsep", ",") and any("," in v for v in strs) and o.kind == "misread":
+            if "," not in devs.get("dsep", ",") and any("," in v for v in strs) and o.kind == "misread" and o.aspect in ("value", "missing-value", "value-by-key"):
                 return "arff-dense:tab-or-blank-separated-with-comma-in-a-value:wrong-delimiter-inferred"
             if o.aspect == "missing-marker":
                 if any(",?," in v.replace(" ", "") for v in strs): return "arff-dense:missing-marker:question-mark-between-commas-inside-quotes"
@@ -423,9 +426,9 @@ def run_tables(ctx, rng):
         return False
     # ---------------- ARFF ----------------
     if ctx.quick:
-        aruns = [("k2", {"K = 1": "K = 2", 'Shapes = {"nsc"}': 'Shapes = {"nsc", "nnc"}'}),
+        aruns = [("k2", {"K = 1": "K = 2"}),
                  ("k2ssn", {"K = 1": "K = 2", 'Shapes = {"nsc"}': 'Shapes = {"ssn"}', "SparseSet = {FALSE, TRUE}": "SparseSet = {FALSE}"}),
-                 ("k1", {'Shapes = {"nsc"}': 'Shapes = {"sc", "cns", "dn", "s", "ssn"}', "Rich = FALSE": "Rich = TRUE"})]
+                 ("k1", {'Shapes = {"nsc"}': 'Shapes = {"sc", "cns", "dn", "s", "ssn", "nnc"}', "Rich = FALSE": "Rich = TRUE"})]
     else:
         aruns = [("k2rich", {"K = 1": "K = 2", 'Shapes = {"nsc"}': 'Shapes = {"nsc", "sc", "cns", "dn", "s", "nnc", "ssn"}', "Rich = FALSE": "Rich = TRUE"}),
                  ("k3", {"K = 1": "K = 3", 'Shapes = {"nsc"}': 'Shapes = {"sc"}', "SparseSet = {FALSE, TRUE}": "SparseSet = {FALSE}"})]
@@ -483,7 +486,9 @@ def pipeline(ctx, rng, okcases, failures):
         from coba.environments.supervised import SupervisedSimulation
         env = Environments.from_supervised(*a, **k)[0]
         return env if isinstance(env, SupervisedSimulation) else env[0]
-    sample = rng.sample(okcases, min(len(okcases), ctx.pick(1500, 12000)))
+    few = [k for k in okcases if len(k[1]["devs"]) <= 1]          # every file at most one step from the default, and a sample of the rest
+    rest = [k for k in okcases if len(k[1]["devs"]) > 1]
+    sample = few + rng.sample(rest, min(len(rest), ctx.pick(1200, 12000)))
     n_sup = n_oml = 0
     for n, (fmt, c, lines, attrs, rows) in enumerate(sample):
         nl = "\r\n" if n % 2 else "\n"; gz = (n // 2) % 2 == 1
@@ -581,13 +586,14 @@ def pipeline(ctx, rng, okcases, failures):
 
 
 def run(ctx):
-    import sys
+    import sys, time
     rng = random.Random(ctx.seed)
     # LazyDense._enc_all (rows.py 54-61) has a bare `except:` around its yield: a half-consumed row that is
     # garbage-collected prints "generator ignored GeneratorExit" to stderr; harmless noise, not C12's subject
     sys.unraisablehook = lambda *a: None
-    run_delim(ctx, rng)
+    t0 = time.time(); run_delim(ctx, rng); t1 = time.time()
     run_tables(ctx, rng)
+    ctx.extra["seconds"] = dict(delim=round(t1 - t0, 1), tables=round(time.time() - t1, 1))
     ctx.assumptions += [
         "characters outside the spec's alphabet (letters, digits, blank, tab as separator only, , ' \" \\ % ? { } and one non-ASCII character) are not explored; values never contain a line break or a tab",
         "line terminators are LF and CR LF (a lone CR is not a terminator of the property's domain); text is valid UTF-8",
